@@ -112,7 +112,11 @@ def rule_tpl_role(ctx):
     body = A.fn_text(fn)
     if "casted_traits.iter().zip(members).map(|(casted_trait,member)|" not in body:
         ctx.report("role:scalar:zip", ctx.where(fn.file, fn.node), "`casted_traits` is no longer zipped with `members` in field order: a field is combined with another field's trait cast", {})
-    if "add_where_clauses_for_new_ident(&multi_field_data.state.input.generics,&fields,scalar_ident,type_where_clauses,true)" not in body:
+    def _nb(t_):
+        """borrow- and clone-insensitive text: how an argument is passed (`&x`, `x`, `x.clone()`) is not what it is"""
+        return re.sub(r"\.clone\(\)", "", str(t_)).replace("&mut ", "").replace("&", "")
+
+    if "add_where_clauses_for_new_ident(multi_field_data.state.input.generics,fields,scalar_ident,type_where_clauses,true)" not in _nb(body):
         ctx.report("role:scalar:generics", ctx.where(fn.file, fn.node), "the scalar type parameter is no longer added through `add_where_clauses_for_new_ident(.., &fields, ..)` (Copy bound for more than one field)", {})
     wc = A.get_fn(ctx.files, "impl/src/utils.rs", "add_where_clauses_for_new_ident")
     wt = A.fn_text(wc)
@@ -133,7 +137,7 @@ def rule_tpl_role(ctx):
         e = A.get_fn(ctx.files, rel, "expand")
         n += 1
         ctx.instance(f"{rel}:ref-kind")
-        if f"generics_and_exprs(multi_field_data.clone(),&scalar_ident,type_where_clauses,{kind_})" not in A.fn_text(e):
+        if f"generics_and_exprs(multi_field_data,scalar_ident,type_where_clauses,{kind_})" not in _nb(A.fn_text(e)):
             ctx.report(f"role:{rel}:ref", ctx.where(e.file, e.node), f"`{rel}` no longer builds its field expressions with {kind_}", {})
     ctx.floor("operator templates", n, 10)
 
